@@ -102,7 +102,9 @@ theorem PW_iff_of_refl (eq : α → α → Bool) (hrefl : ∀ x, eq x x = true) 
       | cons y ys =>
         refine .cons (.inr (hk 0 (by simp) (by simp))) (ih ys (by simpa using hl) ?_)
         intro k h1 h2
-        simpa using hk (k+1) (by simpa using h1) (by simpa using h2)
+        have := hk (k+1) (by simp only [List.length_cons]; omega) (by simp only [List.length_cons]; omega)
+        simp only [List.getElem_cons_succ] at this
+        exact this
 
 /-- the diff is absent ONLY when the sequences are element-wise equal (both algorithms) -/
 theorem absent_only_if_equal (eq : α → α → Bool) (t s : List α)
